@@ -324,6 +324,73 @@ func TestHeadRace(t *testing.T) {
 		tw.Put(rec)
 		rw.Put(mbt.Result{ID: rec.Tr, Key: fmt.Sprint(rec.Tr), NonTriv: true, Verdict: "ok"})
 	}
+	// third kind: a Head() caller is parked between the two reads of localHead (pending cache, store head) while the
+	// sync loop moves the pending head into the store and cleans the cache; what it returns once released is not below
+	// what Head() had returned before.
+	for run := 0; run < 4; run++ {
+		rec := HeadStep{Tr: 500200 + run, I: 0, Op: "headseq", Trusted: []int{}, Results: []int{}}
+		synctest.Test(t, func(t *testing.T) {
+			bg := context.Background()
+			base := time.Now().Add(-30 * time.Second)
+			times := make([]int64, 16)
+			for i := range times {
+				times[i] = base.Add(time.Duration(i) * time.Second).UnixNano()
+			}
+			chain := vh.NewChainTimes("c", 1, times)
+			far := 3 + run%3
+			n := newNode(t, chain, 1, 1+run%2, hsync.WithBlockTime(time.Second), hsync.WithRecencyThreshold(time.Hour),
+				hsync.WithTrustingPeriod(2*time.Hour), hsync.WithPruningWindow(1000*time.Hour))
+			n.get.headFn = func(gcall, *vh.Header) (*vh.Header, error) { return nil, errors.New("no network head now") }
+			release := make(chan struct{})
+			n.get.rangeFn = func(gc gcall, from *vh.Header) ([]*vh.Header, error) {
+				<-release
+				return n.get.honestRange(from.Height()+1, gc.To)
+			}
+			if err := n.sy.Start(bg); err != nil {
+				rec.Err = "start: " + err.Error()
+				return
+			}
+			synctest.Wait()
+			sample := func(ctx context.Context) int {
+				ctx, cancel := context.WithTimeout(ctx, time.Minute)
+				defer cancel()
+				h, err := n.sy.Head(ctx)
+				if err != nil || h == nil {
+					return 0
+				}
+				return int(h.Height())
+			}
+			ctx, cancel := context.WithTimeout(bg, time.Minute)
+			if err := n.sub.deliver(ctx, chain.At(uint64(far))); err != nil {
+				rec.Err = "gossip: " + err.Error()
+			}
+			cancel()
+			synctest.Wait() // the head is in the pending cache, the sync loop waits for the held range request
+			rec.Results = append(rec.Results, sample(bg))
+			gate := make(chan struct{})
+			hsync.VerifHook = func(ctx context.Context, point string, args ...uint64) {
+				if point == "localHead.betweenReads" && ctx != nil && ctx.Value(ctxKey{}) != nil && !rec.Started {
+					rec.Started = true
+					<-gate
+				}
+			}
+			defer func() { hsync.VerifHook = nil }()
+			done := make(chan int, 1)
+			go func() { done <- sample(context.WithValue(bg, ctxKey{}, 1)) }()
+			synctest.Wait() // parked between the two reads
+			close(release)
+			synctest.Wait() // the sync loop stored the gap and the pending head and cleaned the cache
+			close(gate)
+			synctest.Wait()
+			rec.Results = append(rec.Results, <-done)
+			rec.Results = append(rec.Results, sample(bg))
+			hsync.VerifHook = nil
+			n.stop()
+			synctest.Wait()
+		})
+		tw.Put(rec)
+		rw.Put(mbt.Result{ID: rec.Tr, Key: fmt.Sprint(rec.Tr), NonTriv: true, Verdict: "ok"})
+	}
 	// second kind: gossip teaches a non-adjacent head (kept in the pending set); the sync loop is parked at the same
 	// yield point in every Append it makes while it fills the gap and applies the pending headers, and Head() is
 	// sampled at each stop: what the Syncer has once returned as its head stays its head while it moves into the store.
